@@ -52,6 +52,9 @@ CHECKS = {
     "C18": (True, "bounded exhaustive enumeration of cyclic circuits x output subsets x hash seeds on the implementation, vs brute-force fixed points",
             "All circuits (I,G) in {(1,2),(2,2),(1,3 arity 2)} (thorough +(1,3 arity 3),(2,3),(1,4)) whose gate fan-ins are arbitrary subsets of the other nodes and that contain a cycle, every output subset of size <=2, 3 hash seeds: result acyclic, lint-clean, same outputs, inputs = originals + one auxiliary per cut node; for every input valuation and every stable state, auxiliaries set to the stable values reproduce every output.",
             TRUST, "4/C18"),
+    "C07": (True, "explicit-state breadth-first search over the live Circuit object (all operation sequences up to a depth over a finite alphabet), invariant in every state, transition checks on every call",
+            "181-operation alphabet (add with every type / fan-in / fan-out shape incl. missing, duplicate, self-referential names, uid=True; connect / disconnect on all pairs and lists; remove; set_output; add_blackbox with legal, illegal and unknown-pin connections; add_subcircuit with two children; fill_blackbox with matching / non-matching children) from 5 seed circuits, depth 3 (thorough 4): wiring invariant + blackbox-pin invariant in every state; every raising call adds no edge and raises ValueError; uid=True never touches an existing node.",
+            TRUST + " State counts are summed over first-operation partitions.", "4/C07"),
 }
 
 NOT_YET = "check not built yet in this session (planned in DESIGN.md section 4); not claimed until its machinery exists"
